@@ -236,6 +236,9 @@ func poolChild(a Args) {
 					// every third multi-key get is shaped like the text parser's: opaque 0 and not quiet for
 					// every key, so that repeated keys are indistinguishable but for their number
 					textlike := rng.Intn(3) == 0
+					// every fourth one is shaped like a binary quiet batch: every key quiet but the last, whose
+					// response ends the answer for the client and must therefore come last (also after a retry)
+					batchlike := !textlike && rng.Intn(3) == 0
 					for j := 0; j < n; j++ {
 						kk := keys[rng.Intn(len(keys))]
 						cmd.Keys = append(cmd.Keys, kk)
@@ -247,9 +250,13 @@ func poolChild(a Args) {
 						} else {
 							req.Opaques = append(req.Opaques, uint32(1000*i+j))
 						}
+						if batchlike {
+							q = j < n-1
+						}
 						req.Quiet = append(req.Quiet, q)
 						cmd.Quiet = append(cmd.Quiet, q)
 					}
+					terminalSeen, afterTerminal := false, 0
 					got := make([][]interface{}, n)
 					seen := make([]int, n)
 					var gerr error
@@ -279,6 +286,14 @@ func poolChild(a Args) {
 							}
 							seen[j]++
 							got[j] = item(r.Miss, r.Data, r.Flags)
+							if batchlike {
+								if terminalSeen {
+									afterTerminal++
+								}
+								if j == n-1 {
+									terminalSeen = true
+								}
+							}
 						case e, ok := <-ec:
 							if !ok {
 								ec = nil
@@ -305,6 +320,8 @@ func poolChild(a Args) {
 						res = []interface{}{"multi", items}
 						if bad {
 							res = []interface{}{"malformed", fmt.Sprintf("responses per key %v, unattributable %d", seen, extra)}
+						} else if afterTerminal > 0 {
+							res = []interface{}{"malformed", fmt.Sprintf("%d responses arrived after the response to the terminating (non-quiet) get", afterTerminal)}
 						}
 					}
 				}
